@@ -276,6 +276,9 @@ class PhysicalityObserver:
                 self.gvalid = bool(rg.apply_op(self.g, name, ev["p"], ev["modes"], ev["dagger"], self.hbar))
             except Exception:
                 self.gvalid = False
+        if name.startswith("Measure"):
+            self.rep.monitor("physical-after-measurement")
+            self.rep.seen("measurement-kinds", "%s%s@%s" % (name, ":select" if getattr(ev["op"], "select", None) is not None else "", lab))
         if not self.physical(after, locus, detail):
             return
         if before is None or before.n != after.n:
